@@ -980,6 +980,19 @@ func (p *Program) guardedLeaves(v ssa.Value) []guardedLeaf {
 				walk(b, facts, depth+1)
 				return
 			}
+		case *ssa.Parameter:
+			// a transparent helper's parameter is what its callers pass, under the guards of the call
+			if fn := x.Parent(); p.isTransparent(fn) {
+				sites := p.helpers().sites[fn]
+				if len(sites) > 0 {
+					for _, s := range sites {
+						if a := argAt(s, paramIndex(x)); a != nil {
+							walk(a, with(guardsOf(s.Block())), depth+1)
+						}
+					}
+					return
+				}
+			}
 		}
 		out = append(out, guardedLeaf{v, facts, lastPred})
 	}
@@ -1200,20 +1213,23 @@ func ruleVerbKey(r *Run) {
 	methodsF := p.StructField("path", "methods")
 	verbPar := sh.fn.Params[2]
 	good, n := true, 0
-	p.eachInstrRegion(sh.fn, func(_ *ssa.Function, in ssa.Instruction) {
-		lk, ok := in.(*ssa.Lookup)
-		if !ok {
-			return
-		}
-		for _, o := range p.origins(lk.X, originOpts{}) {
-			if loadsField(o, methodsF) {
-				n++
-				if !p.onlyFrom(lk.Index, verbPar) {
-					good = false
+	for _, node := range p.rootedRegion(sh.fn) {
+		node := node
+		eachInstr(node.fn, func(in ssa.Instruction) {
+			lk, ok := in.(*ssa.Lookup)
+			if !ok {
+				return
+			}
+			for _, o := range p.origins(lk.X, originOpts{}) {
+				if loadsField(o, methodsF) {
+					n++
+					if idx := node.bind.subst(lk.Index); idx != ssa.Value(verbPar) && !p.onlyFrom(idx, verbPar) {
+						good = false
+					}
 				}
 			}
-		}
-	})
+		})
+	}
 	r.check(good && n > 0, "(*path).search/leaf-keyed-by-verb", sh.fn.Pos(), "the per-verb table is indexed by the verb parameter", "the per-verb table at the leaf is not indexed by search's verb parameter: requests reach methods bound to another verb")
 	// recursive calls pass the verb on unchanged
 	passOK := true
@@ -1293,49 +1309,54 @@ func ruleLeafExhausted(r *Run) {
 	toks := sh.fn.Params[1]
 	n := 0
 	good := true
-	p.eachInstrRegion(sh.fn, func(_ *ssa.Function, in ssa.Instruction) {
-		isLeafRead := false
-		switch x := in.(type) {
-		case *ssa.Lookup:
-			for _, o := range p.origins(x.X, originOpts{}) {
-				if loadsField(o, methodsF) {
+	// search and, call chain by call chain, the helpers it uses (a lookup helper shared with addRule is judged under
+	// the guards of search's own call)
+	for _, node := range p.rootedRegion(sh.fn) {
+		node := node
+		eachInstr(node.fn, func(in ssa.Instruction) {
+			isLeafRead := false
+			switch x := in.(type) {
+			case *ssa.Lookup:
+				for _, o := range p.origins(x.X, originOpts{}) {
+					if loadsField(o, methodsF) {
+						isLeafRead = true
+					}
+				}
+			case *ssa.UnOp:
+				if loadsField(x, allF) {
 					isLeafRead = true
 				}
 			}
-		case *ssa.UnOp:
-			if loadsField(x, allF) {
-				isLeafRead = true
+			if !isLeafRead {
+				return
 			}
-		}
-		if !isLeafRead {
-			return
-		}
-		n++
-		ok := p.guardedInEveryContext(in.Block(), func(g guardFact) bool {
-			bo, isB := g.Cond.(*ssa.BinOp)
-			if !isB {
+			n++
+			ok := p.guardedInChain(node, in.Block(), func(g guardFact) bool {
+				bo, isB := g.Cond.(*ssa.BinOp)
+				if !isB {
+					return false
+				}
+				lc, isL := bo.X.(*ssa.Call)
+				if !isL || calleeName(lc) != "builtin.len" || !p.onlyFrom(lc.Call.Args[0], toks) {
+					return false
+				}
+				k, isC := constInt(bo.Y)
+				if !isC {
+					return false
+				}
+				// len(toks) <= 1  (or < 2, == 1, == 0 …)
+				switch {
+				case g.True && bo.Op == token.LEQ && k <= 1, g.True && bo.Op == token.LSS && k <= 2, g.True && bo.Op == token.EQL && k <= 1,
+					!g.True && bo.Op == token.GTR && k <= 1, !g.True && bo.Op == token.GEQ && k <= 2:
+					return true
+				}
 				return false
+			})
+			if !ok {
+				good = false
 			}
-			lc, isL := bo.X.(*ssa.Call)
-			if !isL || calleeName(lc) != "builtin.len" || !p.onlyFrom(lc.Call.Args[0], toks) {
-				return false
-			}
-			k, isC := constInt(bo.Y)
-			if !isC {
-				return false
-			}
-			// len(toks) <= 1  (or < 2, == 1, == 0 …)
-			switch {
-			case g.True && bo.Op == token.LEQ && k <= 1, g.True && bo.Op == token.LSS && k <= 2, g.True && bo.Op == token.EQL && k <= 1,
-				!g.True && bo.Op == token.GTR && k <= 1, !g.True && bo.Op == token.GEQ && k <= 2:
-				return true
-			}
-			return false
 		})
-		if !ok {
-			good = false
-		}
-	})
+	}
 	r.check(good && n > 0, "(*path).search/leaf-only-when-exhausted", sh.fn.Pos(), "the method tables are consulted only when at most the end marker is left",
 		"a method can be returned while request tokens are still unmatched: /v1/a/b/EXTRA is dispatched to the method of /v1/a/b")
 }
